@@ -16,7 +16,8 @@ Proved here, for every pattern of 1..63 positions, every budget, every sequence 
 * `match_revcomp`: strand symmetry of mismatch-only matching, for the mirrored code list; `complement_table_mirror`
   (decided over the generated tables) says that complementing a letter mirrors its code;
 * `dnaCode_is_iupac`, `dnaCode_acgt_only`: the generated IUPAC table is the IUPAC table;
-* `locate_total`: the repaired `LocatePattern` does not panic on a non-empty pattern.
+* `locate_total`, `allMatches_total`: the repaired `LocatePattern` / `AllMatches` do not panic (non-empty pattern, linear
+  sequence); `filterBestMatch_subset`, `findAllIndex_inside`: kept hits are reported hits, and end inside the sequence.
 
 NOT proved (tied by the correspondence check and the harness oracle only, see lib/cfg/C10.py):
 * `indel_iff` — full statement: `manberIndel P d b l` contains `(pos-m+1, k)` iff the best edit distance between the pattern and
@@ -217,6 +218,38 @@ example : (do
     let P ← (compile ([65, 35, 67, 33, 91, 71, 84, 93, 33, 82, 78, 91, 65, 67, 93, 35] : Bytes) 2 false).toOption
     let R ← (reverseComplement P).toOption
     pure (R.cpat, R.patlen == P.patlen)) = some (([91, 71, 84, 93, 35, 78, 33, 89, 33, 91, 65, 67, 93, 71, 84, 35] : Bytes), true) := by decide
+
+/-! ## Go layer -/
+
+/-- `FilterBestMatch` only keeps hits reported by `FindAllIndex` -/
+theorem filterBestMatch_subset (P : Pattern) (seq : Bytes) (circular : Bool) (begin length : Int) :
+    ∀ h ∈ filterBestMatch P seq circular begin length, h ∈ findAllIndex P seq circular begin length :=
+  filterBest_subset _
+
+/-- every hit of `FindAllIndex` on a linear sequence ends inside the sequence, in every mode
+(in indel mode the start may be negative: "may return shifted pos" in apat_search.c) -/
+theorem findAllIndex_inside (P : Pattern) (seq : Bytes) (begin length : Int) :
+    ∀ h ∈ findAllIndex P seq false begin length, h.1 + P.patlen ≤ (seq.length : Int) ∧ h.2.1 = h.1 + P.patlen ∧ 0 ≤ h.2.2 := by
+  intro h hh
+  have hb := findAllIndex_bound P seq begin length h hh
+  refine ⟨hb.1, ?_, hb.2⟩
+  unfold findAllIndex at hh
+  simp only [List.mem_map, Prod.exists] at hh
+  obtain ⟨a, b, _, rfl⟩ := hh
+  rfl
+
+/-- **`AllMatches` on a linear sequence never panics**, whatever the lengths of pattern and sequence (D32 repaired:
+the re-alignment fragment may be as short as, or shorter than, the pattern).  `hc` holds for every compiled pattern
+(a position takes at least one character of the pattern string). -/
+theorem allMatches_total (P : Pattern) (seq : Bytes) (begin length : Int)
+    (hm1 : 1 ≤ P.patlen) (hc : P.patlen ≤ P.cpat.length) :
+    allMatches P seq false begin length ≠ .panic :=
+  allMatches_no_panic P seq begin length hm1 hc
+
+/-- non-vacuity of `allMatches_total`: the D32 input (sequence shorter than the pattern, one deletion) -/
+example : (compile ([65, 67, 71, 84, 65] : Bytes) 1 true).toOption.map
+    (fun P => (decide (1 ≤ P.patlen ∧ P.patlen ≤ P.cpat.length), allMatches P ([97, 99, 103, 97] : Bytes) false 0 (-1)))
+    = some (true, .ok [(0, 4, 1)]) := by decide
 
 /-! ## `LocatePattern` (repaired) -/
 
